@@ -55,7 +55,7 @@ def run_one(builder, findings, unit_files, m):
 
 def unit_files(builder, findings):
     u = builder(R.REPO, findings)
-    return sorted(set(it.rel for it in u.items) | set(getattr(u, 'extra_files', [])))
+    return sorted(set(it.rel for it in u.items) | set(u.files))
 
 
 def run_battery(uid, only=None, workers=8):
